@@ -259,6 +259,16 @@ func propsOf(ct *FuncContract) map[string]bool {
 			out[t] = true
 		}
 	}
+	if ct.PanicsMay != nil {
+		for _, t := range ct.PanicsMay.Tags {
+			out[t] = true
+		}
+	}
+	for _, c := range ct.Rejects {
+		for _, t := range c.Tags {
+			out[t] = true
+		}
+	}
 	for _, cs := range ct.Loops {
 		for _, c := range cs {
 			for _, t := range c.Tags {
